@@ -9,6 +9,7 @@ import (
 	"github.com/hashicorp/hcl-lang/reference"
 	"github.com/hashicorp/hcl-lang/schema"
 	"github.com/hashicorp/hcl/v2"
+	"github.com/hashicorp/hcl/v2/ext/typeexpr"
 	"github.com/hashicorp/hcl/v2/hclsyntax"
 	"github.com/zclconf/go-cty/cty"
 )
@@ -40,6 +41,76 @@ func verifSeedDecoder(i int) (*PathDecoder, verifSeed) {
 		pc.ReferenceOrigins = origins
 	}
 	return pd, s
+}
+
+// C11/C04 (G): the Decoder-level lookups on a path whose context holds the targets and origins the
+// real collectors produced for the seed (as a language server keeps them), at any cursor position.
+func VerifP_C01C02C04C05C11_Lookups_N() int            { return len(verifSeedList()) }
+func VerifP_C01C02C04C05C11_Lookups_Name(i int) string { return verifSeedList()[i].name }
+func VerifP_C01C02C04C05C11_Lookups(i int) {
+	s := verifSeedList()[i]
+	D := verifBound("D", 2, 6)
+	f := verifStretch(s.src, vf, D, 0)
+	pc := &PathContext{
+		Schema:           verifSchemas(s.schema),
+		Files:            map[string]*hcl.File{vf: f},
+		Functions:        verifFunctions(),
+		ReferenceTargets: verifTargets(),
+	}
+	dd := NewDecoder(&verifPathReader{paths: map[string]*PathContext{"dir": pc}})
+	dd.SetContext(NewDecoderContext())
+	path := lang.Path{Path: "dir"}
+	pd, err := dd.Path(path)
+	if err != nil {
+		panic(err)
+	}
+	if ts, err := pd.CollectReferenceTargets(); err == nil {
+		pc.ReferenceTargets = append(pc.ReferenceTargets, ts...)
+	}
+	if origins, err := pd.CollectReferenceOrigins(); err == nil {
+		pc.ReferenceOrigins = origins
+	}
+	pos := verifAnyPos(vf)
+	at := verifCursorTag()
+	verifFreeze(pc)
+	verifQuery(func() {
+		ts, err := dd.ReferenceTargetsForOriginAtPos(path, vf, pos)
+		if err == nil {
+			for _, t := range ts {
+				verifAssert(verifRealRange(vf, t.OriginRange), "C02:lookup-origin-range"+at)
+				verifAssert(verifAnd(t.OriginRange.Start.Byte <= pos.Byte, pos.Byte <= t.OriginRange.End.Byte), "C11:definition-lookup-origin-contains-cursor"+at)
+				if t.Range.Filename == vf {
+					verifAssert(verifRealRange(vf, t.Range), "C02:lookup-target-range"+at)
+					if t.DefRangePtr != nil {
+						verifAssert(verifRealRange(vf, *t.DefRangePtr), "C02:lookup-target-def-range"+at)
+					}
+				}
+				// the inverse view: find-references asked at the reported definition reports this origin
+				where := t.Range.Start
+				if t.DefRangePtr != nil {
+					where = t.DefRangePtr.Start
+				}
+				back := dd.ReferenceOriginsTargetingPos(t.Path, t.Range.Filename, where)
+				n := 0
+				for _, o := range back {
+					if verifSameRange(o.Range, t.OriginRange) {
+						n++
+					}
+				}
+				verifAssert(n >= 1, "C11:find-references-at-reported-definition-reports-the-origin"+at)
+			}
+		}
+		os := dd.ReferenceOriginsTargetingPos(path, vf, pos)
+		for k, o := range os {
+			verifAssert(verifRealRange(vf, o.Range), "C02:lookup-origins-range"+at)
+			if k > 0 {
+				verifAssert(os[k-1].Range.Start.Byte <= o.Range.Start.Byte, "C03:lookup-origins-ordered"+at)
+			}
+		}
+	})
+	verifNoWrites("C04:lookup-writes", true)
+	verifNoWrites("C05:lookup-writes", false)
+	verifReach("end")
 }
 
 func VerifP_C01C02C04C05C12_Hover_N() int { return len(verifSeedList()) }
@@ -155,29 +226,41 @@ func verifCheckHoverElement(body *hclsyntax.Body, bs *schema.BodySchema, pos hcl
 	}
 }
 
-// verifSpecDependentBody: the dependent body a block selects, re-stated from the documentation of
-// dependency keys: the values of the labels marked as keys plus the values (reference address or
-// literal) of the written attributes marked as keys select the body declared for exactly those keys.
-func verifSpecDependentBody(block *hclsyntax.Block, bsch *schema.BlockSchema, es []verifDepEntry) *schema.BodySchema {
-	type kv struct{ k, v string }
-	var want []kv
-	for i, l := range bsch.Labels {
+// verifSpecKey: one key/value pair of a block's dependency keys; rng is where it is written
+// (nil for a value that comes from the attribute's default).
+type verifSpecKey struct {
+	k, v string
+	rng  *hcl.Range
+}
+
+// verifSpecKeys: the dependency keys a block presents to a body schema, re-stated from the
+// documentation: the values of the labels marked as keys plus, for every attribute the body marks
+// as key, the written value (reference address or literal) or else its default value.
+func verifSpecKeys(block *hclsyntax.Block, labels []*schema.LabelSchema, body *schema.BodySchema) ([]verifSpecKey, bool) {
+	var want []verifSpecKey
+	for i, l := range labels {
 		if l.IsDepKey {
 			if i >= len(block.Labels) {
 				break
 			}
-			want = append(want, kv{"label" + string(rune('0'+i)), block.Labels[i]})
+			r := block.LabelRanges[i]
+			want = append(want, verifSpecKey{"label" + string(rune('0'+i)), block.Labels[i], &r})
 		}
 	}
-	if bsch.Body != nil && block.Body != nil {
-		for _, name := range bsch.Body.AttributeNames() {
-			if !bsch.Body.Attributes[name].IsDepKey {
+	if body != nil && block.Body != nil {
+		for _, name := range body.AttributeNames() {
+			asch := body.Attributes[name]
+			if !asch.IsDepKey {
 				continue
 			}
 			attr, ok := block.Body.Attributes[name]
 			if !ok {
+				if dv, isDefault := asch.DefaultValue.(schema.DefaultValue); isDefault && dv.Value.Type() == cty.String {
+					want = append(want, verifSpecKey{"attr:" + name, "static:" + dv.Value.AsString(), nil})
+				}
 				continue
 			}
+			r := attr.Expr.Range()
 			if st, ok := attr.Expr.(*hclsyntax.ScopeTraversalExpr); ok {
 				s := ""
 				for _, step := range st.Traversal {
@@ -187,52 +270,149 @@ func verifSpecDependentBody(block *hclsyntax.Block, bsch *schema.BlockSchema, es
 					case hcl.TraverseAttr:
 						s += "." + x.Name
 					default:
-						return nil
+						return nil, false
 					}
 				}
-				want = append(want, kv{"attr:" + name, "addr:" + s})
+				want = append(want, verifSpecKey{"attr:" + name, "addr:" + s, &r})
 				continue
 			}
 			val, _ := attr.Expr.Value(nil)
 			if val.IsWhollyKnown() && val.Type() == cty.String {
-				want = append(want, kv{"attr:" + name, "static:" + val.AsString()})
+				want = append(want, verifSpecKey{"attr:" + name, "static:" + val.AsString(), &r})
 			} else {
-				return nil
+				return nil, false
 			}
 		}
 	}
+	return want, true
+}
+
+func verifSpecLookup(want []verifSpecKey, es []verifDepEntry) *schema.BodySchema {
 	for _, e := range es {
-		var have []kv
-		for _, l := range e.keys.Labels {
-			have = append(have, kv{"label" + string(rune('0'+l.Index)), l.Value})
-		}
-		for _, a := range e.keys.Attributes {
-			if len(a.Expr.Address) > 0 {
-				have = append(have, kv{"attr:" + a.Name, "addr:" + a.Expr.Address.String()})
-			} else {
-				have = append(have, kv{"attr:" + a.Name, "static:" + a.Expr.Static.AsString()})
-			}
-		}
-		if len(have) != len(want) {
-			continue
-		}
+		n := 0
 		all := true
-		for _, w := range want {
+		for _, l := range e.keys.Labels {
+			n++
 			found := false
-			for _, h := range have {
-				if h == w {
+			for _, w := range want {
+				if w.k == "label"+string(rune('0'+l.Index)) && w.v == l.Value {
 					found = true
 				}
 			}
-			if !found {
-				all = false
-			}
+			all = all && found
 		}
-		if all {
+		for _, a := range e.keys.Attributes {
+			n++
+			v := "static:"
+			if len(a.Expr.Address) > 0 {
+				v = "addr:" + a.Expr.Address.String()
+			} else {
+				v += a.Expr.Static.AsString()
+			}
+			found := false
+			for _, w := range want {
+				if w.k == "attr:"+a.Name && w.v == v {
+					found = true
+				}
+			}
+			all = all && found
+		}
+		if all && n == len(want) {
 			return e.body
 		}
 	}
 	return nil
+}
+
+// verifSpecDependentBodyKeys: the dependent body a block selects and the keys that selected it:
+// the body registered for exactly the block's keys; when that body itself marks attributes as
+// keys, the body registered for the keys taken against it (second level) if there is one.
+func verifSpecDependentBodyKeys(block *hclsyntax.Block, bsch *schema.BlockSchema, es []verifDepEntry) (*schema.BodySchema, []verifSpecKey) {
+	b, k, _ := verifSpecDependentBodyResolved(block, bsch, es)
+	return b, k
+}
+
+// ... and whether the selection is resolved: no keys at all (the static body alone applies), or
+// a body registered for the keys on every level the bodies ask for.
+func verifSpecDependentBodyResolved(block *hclsyntax.Block, bsch *schema.BlockSchema, es []verifDepEntry) (*schema.BodySchema, []verifSpecKey, bool) {
+	want, ok := verifSpecKeys(block, bsch.Labels, bsch.Body)
+	if !ok {
+		return nil, nil, false
+	}
+	if len(want) == 0 {
+		return nil, nil, true
+	}
+	first := verifSpecLookup(want, es)
+	if first == nil {
+		return nil, nil, false
+	}
+	nested := false
+	for _, a := range first.Attributes {
+		if a.IsDepKey {
+			nested = true
+		}
+	}
+	if nested {
+		want2, ok := verifSpecKeys(block, bsch.Labels, first)
+		if !ok {
+			return first, want, false
+		}
+		second := verifSpecLookup(want2, es)
+		if second == nil {
+			return first, want, false
+		}
+		return second, want2, true
+	}
+	return first, want, true
+}
+
+func verifSpecDependentBody(block *hclsyntax.Block, bsch *schema.BlockSchema, es []verifDepEntry) *schema.BodySchema {
+	b, _ := verifSpecDependentBodyKeys(block, bsch, es)
+	return b
+}
+
+// verifCheckLinks: documentation links are attached to exactly the written labels and attribute
+// values that selected a dependent body which has a link, and carry that body's URL.
+func verifCheckLinks(body *hclsyntax.Body, bs *schema.BodySchema, links []lang.Link) {
+	if bs == nil {
+		return
+	}
+	total := 0
+	judged := true
+	for _, block := range body.Blocks {
+		bsch, ok := bs.Blocks[block.Type]
+		if !ok {
+			continue
+		}
+		es := verifDepEntriesOf(block.Type)
+		if es == nil {
+			if len(bsch.DependentBody) > 0 || (bsch.Body != nil && bsch.Body.DocsLink != nil) {
+				judged = false
+			}
+			continue
+		}
+		db, keys := verifSpecDependentBodyKeys(block, bsch, es)
+		if db == nil || db.DocsLink == nil {
+			continue
+		}
+		for _, k := range keys {
+			if k.rng == nil {
+				continue
+			}
+			total++
+			n := 0
+			for _, l := range links {
+				if verifSameRange(l.Range, *k.rng) {
+					n++
+					verifAssert(strings.HasPrefix(l.URI, db.DocsLink.URL), "C16:link-carries-the-url-of-the-selected-body")
+				}
+			}
+			verifAssert(n == 1, "C16:one-link-on-every-written-key-that-selected-the-body")
+		}
+	}
+	if judged {
+		verifAssert(len(links) == total, "C16:links-only-on-the-keys-that-selected-a-body-with-a-link")
+	}
 }
 
 // verifCheckLabelCandidates: with the cursor inside the quotes of a completable label of a
@@ -534,6 +714,84 @@ func VerifP_C01C02C04C05C14_Symbols(i int) {
 	verifReach("end")
 }
 
+// verifCheckUnexpected: 'unexpected' diagnostics are exactly the top-level items, and the items
+// directly inside top-level blocks, that the effective schema (static body, the dependent body the
+// block selects, the enabled extensions) does not know - one each, on the item - and none inside a
+// block whose dependent body cannot be resolved. Blocks whose dependent bodies are not listed for
+// the oracle are not judged.
+func verifCheckUnexpected(body *hclsyntax.Body, bs *schema.BodySchema, diags hcl.Diagnostics) {
+	if bs == nil {
+		return
+	}
+	count := func(summary string, subject hcl.Range) int {
+		n := 0
+		for _, dg := range diags {
+			if dg.Summary == summary && dg.Subject != nil && verifSameRange(*dg.Subject, subject) {
+				n++
+			}
+		}
+		return n
+	}
+	expect := func(unexpected bool, summary string, subject hcl.Range, tag string) {
+		if unexpected {
+			verifAssert(count(summary, subject) == 1, "C15:one-unexpected-error-per-unknown-"+tag)
+		} else {
+			verifAssert(count(summary, subject) == 0, "C15:no-unexpected-error-for-known-"+tag)
+		}
+	}
+	knownAttr := func(b *schema.BodySchema, name string) bool {
+		if b == nil {
+			return false
+		}
+		if _, ok := b.Attributes[name]; ok {
+			return true
+		}
+		if b.AnyAttribute != nil {
+			return true
+		}
+		if b.Extensions != nil && ((b.Extensions.Count && name == "count") || (b.Extensions.ForEach && name == "for_each")) {
+			return true
+		}
+		return false
+	}
+	knownBlock := func(b *schema.BodySchema, typ string) bool {
+		if b == nil {
+			return false
+		}
+		if _, ok := b.Blocks[typ]; ok {
+			return true
+		}
+		return b.Extensions != nil && b.Extensions.DynamicBlocks && typ == "dynamic"
+	}
+	for name, attr := range body.Attributes {
+		expect(!knownAttr(bs, name), "Unexpected attribute", attr.SrcRange, "attribute")
+	}
+	for _, block := range body.Blocks {
+		bsch, ok := bs.Blocks[block.Type]
+		expect(!ok, "Unexpected block", block.TypeRange, "block")
+		if !ok || bsch.Body == nil || block.Body == nil {
+			continue
+		}
+		var db *schema.BodySchema
+		resolved := true
+		if len(bsch.DependentBody) > 0 {
+			es := verifDepEntriesOf(block.Type)
+			if es == nil {
+				continue
+			}
+			db, _, resolved = verifSpecDependentBodyResolved(block, bsch, es)
+		}
+		for name, attr := range block.Body.Attributes {
+			known := knownAttr(bsch.Body, name) || knownAttr(db, name)
+			expect(resolved && !known, "Unexpected attribute", attr.SrcRange, "attribute-in-block")
+		}
+		for _, nb := range block.Body.Blocks {
+			known := knownBlock(bsch.Body, nb.Type) || knownBlock(db, nb.Type)
+			expect(resolved && !known, "Unexpected block", nb.TypeRange, "block-in-block")
+		}
+	}
+}
+
 func VerifP_C01C02C04C05C15_Validate_N() int { return len(verifSeedList()) }
 func VerifP_C01C02C04C05C15_Validate_Name(i int) string { return verifSeedList()[i].name }
 func VerifP_C01C02C04C05C15_Validate(i int) {
@@ -546,6 +804,9 @@ func VerifP_C01C02C04C05C15_Validate(i int) {
 				if dg.Subject != nil {
 					verifAssert(verifRealRange(vf, *dg.Subject), "C02:diagnostic-subject")
 				}
+			}
+			if body, ok := d.pathCtx.Files[vf].Body.(*hclsyntax.Body); ok {
+				verifCheckUnexpected(body, d.pathCtx.Schema, diags)
 			}
 		}
 	})
@@ -651,6 +912,7 @@ func verifCheckDeclaredTargets(body *hclsyntax.Body, bs *schema.BodySchema, ts r
 							verifAssert(verifSameRange(*t.DefRangePtr, block.DefRange()), "C09:block-target-definition-is-its-header")
 						}
 						verifAssert(t.ScopeId == bsch.Address.ScopeId, "C09:block-target-scope")
+						verifCheckBlockTargetType(block, bsch, t)
 					}
 				}
 			}
@@ -673,6 +935,7 @@ func verifCheckDeclaredTargets(body *hclsyntax.Body, bs *schema.BodySchema, ts r
 							untyped++
 						} else {
 							typed++
+							verifCheckExprTargetType(attr.Expr, t)
 						}
 					}
 				}
@@ -706,6 +969,73 @@ func verifCheckDeclaredTargets(body *hclsyntax.Body, bs *schema.BodySchema, ts r
 		}
 		verifAssert(n >= 1, "C09:addressable-attribute-has-target-with-its-extent")
 	}
+}
+
+// verifCheckBlockTargetType: a typed block target carries the declared type - the type written in
+// the attribute a type-of block points at (dynamic when absent or not a type), an object with one
+// attribute per attribute and nested block type of the body when the body is data.
+func verifCheckBlockTargetType(block *hclsyntax.Block, bsch *schema.BlockSchema, t reference.Target) {
+	if t.Type == cty.NilType {
+		return
+	}
+	as := bsch.Address
+	if as.AsTypeOf != nil && as.AsTypeOf.AttributeExpr != "" && !as.BodyAsData && !as.DependentBodyAsData {
+		want := cty.DynamicPseudoType
+		if attr, ok := block.Body.Attributes[as.AsTypeOf.AttributeExpr]; ok && bsch.Body != nil {
+			if asch, ok := bsch.Body.Attributes[as.AsTypeOf.AttributeExpr]; ok {
+				if _, isDecl := asch.Constraint.(schema.TypeDeclaration); isDecl {
+					if ty, diags := typeexpr.TypeConstraint(attr.Expr); !diags.HasErrors() {
+						want = ty
+					}
+				}
+			}
+		}
+		verifAssert(t.Type.Equals(want), "C09:type-of-block-target-has-the-declared-type")
+		return
+	}
+	if as.BodyAsData && !as.DependentBodyAsData && bsch.Body != nil && as.AsTypeOf == nil {
+		verifAssert(t.Type.IsObjectType(), "C09:body-as-data-target-is-an-object")
+		if !t.Type.IsObjectType() {
+			return
+		}
+		for name, asch := range bsch.Body.Attributes {
+			verifAssert(t.Type.HasAttribute(name), "C09:body-as-data-type-has-every-schema-attribute")
+			if lt, ok := asch.Constraint.(schema.LiteralType); ok && t.Type.HasAttribute(name) {
+				verifAssert(t.Type.AttributeType(name).Equals(lt.Type), "C09:body-as-data-attribute-type-is-the-declared-type")
+			}
+		}
+		for bt, nb := range bsch.Body.Blocks {
+			verifAssert(t.Type.HasAttribute(bt), "C09:body-as-data-type-has-every-nested-block-type")
+			if !t.Type.HasAttribute(bt) {
+				continue
+			}
+			at := t.Type.AttributeType(bt)
+			switch nb.Type {
+			case schema.BlockTypeList:
+				verifAssert(at.IsListType(), "C09:nested-list-block-is-a-list")
+			case schema.BlockTypeSet:
+				verifAssert(at.IsSetType(), "C09:nested-set-block-is-a-set")
+			case schema.BlockTypeMap:
+				verifAssert(at.IsMapType(), "C09:nested-map-block-is-a-map")
+			case schema.BlockTypeObject:
+				verifAssert(at.IsObjectType(), "C09:nested-object-block-is-an-object")
+			}
+		}
+	}
+}
+
+// verifCheckExprTargetType: the typed target of an attribute addressable by its expression type
+// carries the type of the written value, for values without references (literals and collections
+// of literals): evaluated by hcl itself.
+func verifCheckExprTargetType(expr hclsyntax.Expression, t reference.Target) {
+	if len(hclsyntax.Variables(expr)) > 0 {
+		return
+	}
+	val, diags := expr.Value(nil)
+	if diags.HasErrors() || !val.IsWhollyKnown() {
+		return
+	}
+	verifAssert(t.Type.Equals(val.Type()), "C09:expression-typed-target-has-the-type-of-the-written-value")
 }
 
 // verifCheckTargets: ranges are real; a nested target extends its parent's address by exactly one
@@ -967,6 +1297,16 @@ func verifCheckSignature(d *PathDecoder, pos hcl.Pos, sig *lang.FunctionSignatur
 		if call.OpenParenRange.End.Byte <= pos.Byte && pos.Byte <= call.CloseParenRange.Start.Byte {
 			inner = call // VisitAll goes from outer to inner nodes
 		}
+		// a parameterless function: anywhere on the call (strictly inside its extent)
+		if fs := d.pathCtx.Functions[call.Name]; len(fs.Params) == 0 && fs.VarParam == nil {
+			if call.NameRange.Start.Byte < pos.Byte && pos.Byte < call.CloseParenRange.End.Byte {
+				inner = call
+			}
+			// directly in front of the name: whether that is "on the call" is not settled
+			if call.NameRange.Start.Byte == pos.Byte {
+				boundary = true
+			}
+		}
 		// directly in front of an opening parenthesis the decoder already reports that call;
 		// whether that position is "inside the parentheses" is not settled by the property
 		if call.OpenParenRange.Start.Byte == pos.Byte {
@@ -984,6 +1324,9 @@ func verifCheckSignature(d *PathDecoder, pos hcl.Pos, sig *lang.FunctionSignatur
 	}
 	if params == 0 {
 		verifAssert(sig != nil, "C20:signature-inside-known-call"+verifCursorTag())
+		if sig != nil {
+			verifAssert(strings.HasPrefix(sig.Name, inner.Name+"("), "C20:signature-of-the-innermost-call"+verifCursorTag())
+		}
 		return
 	}
 	tokens, _ := hclsyntax.LexConfig(d.pathCtx.Files[vf].Bytes, vf, hcl.InitialPos)
@@ -1032,6 +1375,9 @@ func VerifP_C01C02C04C05C16_Links(i int) {
 		if err == nil {
 			for _, l := range links {
 				verifAssert(verifRealRange(vf, l.Range), "C02:link-range")
+			}
+			if body, ok := d.pathCtx.Files[vf].Body.(*hclsyntax.Body); ok {
+				verifCheckLinks(body, d.pathCtx.Schema, links)
 			}
 		}
 	})
